@@ -1,9 +1,8 @@
 // C09 — JIT memory contents: fill pattern on released / shrunk-away memory, write() copies exactly the requested
-// bytes. One block of 64 granules at the start of a 4 KiB arena that is real memory here (JENV_ARENA_BYTES). Spans of at
-// most 2..3 granules (the fill loop runs span_size / 4 times) that start at one of three concrete granules (first behind
-// the padding / middle / last) - with a symbolic start every store of the fill loop goes to a symbolic address of a
-// 4 KiB array and the formula does not fit in 6 GB (measured); the bookkeeping state around the span stays symbolic.
-// Memory is checked at ONE symbolic byte offset, which stands for every byte of the mapping.
+// bytes. One block of 64 granules whose bookkeeping is in any state of I; the spans operated on lie in the first four
+// granules of the block, and only those 256 bytes are real memory for the solver (JENV_CBMC_ARENA_BYTES) - an access
+// anywhere else in the mapping is an out-of-bounds obligation. (With the whole 4 KiB mapping as a symbolic-indexed array
+// no formula fitted in 6 GB.) Memory is checked at ONE symbolic byte offset, which stands for every byte of the window.
 #include "jit_env.h"
 using namespace asmjit;
 using namespace jenv;
@@ -26,18 +25,16 @@ template<uint32_t OPT> static FillWorld fill_world() {
   w.im->tree._root = w.b; w.im->allocation_count = w.pre.stop_count() - w.pre.P();
   w.rw_view = (OPT & kOptDual) ? arena_rw : arena_rx; w.other_view = (OPT & kOptDual) ? arena_rx : arena_rw;
   // one symbolic byte of the writable view, with a symbolic value
-  w.probe = nondet_u16() & 0x0FFF; w.before = nondet_u8();
+  w.probe = nondet_u8(); w.before = nondet_u8();   // a byte of granules 0..3
   w.rw_view[w.probe] = w.before; w.other_view[w.probe] = uint8_t(~w.before);
   return w;
 }
 static inline uint8_t pattern_byte(uint32_t pattern, size_t addr_off) { return uint8_t(pattern >> (8 * (addr_off & 3))); }
-// the span start: first granule behind the padding, a middle granule, or the last granules of the block
-static inline uint32_t pick_granule(uint32_t P) { uint32_t c = nondet_u8() & 3; return c == 0 ? P : c == 1 ? 31 : c == 2 ? 61 : 62; }
 
 // release / shrink with kFillUnusedMemory: freed bytes carry the pattern, every other byte keeps its value
 template<uint32_t OPT, bool SHRINK> static void check_fill() {
   FillWorld w = fill_world<OPT | kOptFill | kOptCustomFill>();
-  uint32_t g = pick_granule(w.pre.P()); V_ASSUME(w.pre.is_span_start(g));
+  uint32_t g = nondet_u8() & 3; V_ASSUME(w.pre.is_span_start(g) && w.pre.span_end(g) <= 4);
   uint32_t e = w.pre.span_end(g);
   uint32_t keep = SHRINK ? 1 + (nondet_u8() & 1) : 0;            // granules kept by shrink
   V_ASSUME(e - g <= keep + 2 && keep <= e - g);
@@ -75,12 +72,12 @@ HARNESS h_fill_shrink() { check_fill<0, true>(); }
 // write(span, offset, src, size): copies exactly [offset, offset + size) into the writable view or refuses
 HARNESS h_write() {
   FillWorld w = fill_world<kOptDual>();
-  uint32_t g = pick_granule(1), n = 1 + (nondet_u8() & 1); V_ASSUME(g + n <= A);
+  uint32_t g = nondet_u8() & 3, n = 1 + (nondet_u8() & 1); V_ASSUME(g + n <= 4);
+  size_t offset = nondet_u8();
   JitAllocator::Span span; span._rx = w.b->rx_ptr() + size_t(g) * G; span._rw = w.b->rw_ptr() + size_t(g) * G; span._size = size_t(n) * G; span._block = w.b;
   if (nondet_bool()) span._flags = JitAllocator::Span::Flags::kInstructionCacheClean;
   static uint8_t src[128];
-  static const uint16_t offsets[8] = { 0, 1, 63, 64, 65, 127, 128, 129 };
-  size_t offset = offsets[nondet_u8() & 7], size = nondet_bool() ? size_t(nondet_u8()) : size_t(nondet_u64());
+  size_t size = nondet_bool() ? size_t(nondet_u8()) : size_t(nondet_u64());
   size_t sidx = nondet_u8() & 127; uint8_t sval = nondet_u8(); src[sidx] = sval;
   uint32_t policy = nondet_u8() & 3;
   BState<1> pre; snapshot<1>(pre, w.b);
@@ -116,8 +113,8 @@ static size_t g_truncate_to;
 static Error truncate_fn(JitAllocator::Span& span, void*) noexcept { span.shrink(g_truncate_to); return Error::kOk; }
 HARNESS h_write_fn() {
   FillWorld w = fill_world<kOptFill | kOptCustomFill>();
-  uint32_t g = pick_granule(w.pre.P()); V_ASSUME(w.pre.is_span_start(g));
-  uint32_t e = w.pre.span_end(g); V_ASSUME(e - g <= 3);
+  uint32_t g = nondet_u8() & 3; V_ASSUME(w.pre.is_span_start(g));
+  uint32_t e = w.pre.span_end(g); V_ASSUME(e <= 4);
   bool frontier = (w.pre.flags & kFI) && w.pre.ss == e;
   JitAllocator::Span span; span._rx = w.b->rx_ptr() + size_t(g) * G; span._rw = w.b->rw_ptr() + size_t(g) * G; span._size = size_t(e - g) * G; span._block = w.b;
   g_truncate_to = 1 + nondet_u8();                                  // 1..256 bytes
